@@ -549,6 +549,17 @@ def check_score(ctx, S, wrong, lp, text=None):
     loaded part has its own origin and divisions); with equal notes, barlines and signatures the positions in
     beats are equal too, which is checked last."""
     A = S.A
+    # an unquantised score at fine divisions: some duration is finer than the format's 1/1024 bound (open known finding). The
+    # loaded part is then built from approximated values - its divisions, and with them onsets, barlines and signature
+    # positions, follow those; whatever the load-side comparison of such a score finds is filed under that finding
+    fine_ = any((Fraction(x["dur_q"]) / 4).denominator > 1024 or (Fraction(x["dur_q"]) / 4).numerator > 1024 for x in A["notes"].values())
+
+    def V(key, what, witness=None, _V=V):           # noqa
+        if fine_ and key != "score-duration-approximated:fraction-beyond-1024":
+            ctx.extra["consequences_of_approximated_durations:" + key.split(":")[0]] += 1
+            _V("score-duration-approximated:fraction-beyond-1024", f"(in a score with durations finer than 1/1024) {key}: {what}", witness)
+        else:
+            _V(key, what, witness)
     try:
         B = R.abstract_part(lp)
     except ValueError:
@@ -600,9 +611,16 @@ def check_score(ctx, S, wrong, lp, text=None):
 
     structure_ok = True
     onset_bad = False
+    # an unquantised score at fine divisions: some duration is finer than the format's 1/1024 bound (open known finding); the
+    # divisions of the loaded part are then derived from approximated values, and onsets land on that other grid
+    beyond_1024 = any((Fraction(x["dur_q"]) / 4).denominator > 1024 or (Fraction(x["dur_q"]) / 4).numerator > 1024 for x in A["notes"].values())
     for sid, (e, g) in present.items():
         ctx.check(7)
-        if "onset" not in wrong and rel_a(e["t"]) != rel_b(g["t"]) and not onset_bad:
+        if "onset" not in wrong and rel_a(e["t"]) != rel_b(g["t"]) and not onset_bad and beyond_1024:
+            onset_bad = True
+            V("score-duration-approximated:fraction-beyond-1024", f"score note {sid} starts {rel_a(e['t'])} quarters after the first note in the saved "
+              f"score, {rel_b(g['t'])} in the loaded one, whose divisions ({B['q']}) come from approximated durations", S.witness(note=e, loaded_divs=B["q"]))
+        elif "onset" not in wrong and rel_a(e["t"]) != rel_b(g["t"]) and not onset_bad:
             onset_bad = True
             V(f"score-onset-differs:{timing_ctx}", f"score note {sid} starts {rel_a(e['t'])} quarters after the first note "
               f"{e0['id']} in the saved score, {rel_b(g['t'])} quarters after it in the loaded one",
